@@ -265,27 +265,36 @@ def plainWrite (dag : Dag) (m : Node) (index : Nat) : FKey × Tsk FKey :=
 def phWrites (dag : Dag) (f : Node) (index : Nat) : List (FKey × Tsk FKey) :=
   (enumFrom 0 f.deps).map (fun (j, d) => (argKey dag f index d, Tsk.alias (FKey.ph j)))
 
-/-- the writes of one iteration of `for _expr in self.exprs`; `nested m` are the writes of the
-    sub-graph of a nested `Fused` member -/
+/-- `_is_dependency_placeholder(task)`: the string `"_<digits>"` -/
+def isPh : Tsk FKey → Bool
+  | .alias (.ph _) => true
+  | _ => false
+
+/-- the writes of one iteration of `for _expr in self.exprs`; `nested m` is the sub-graph of a nested
+    `Fused` member as it is merged into the enclosing dict -/
 def blockOf (dag : Dag) (index : Nat) (nested : Node → List (FKey × Tsk FKey)) (mn : Nat) :
     List (FKey × Tsk FKey) :=
   match getNode dag mn with
   | none => []
   | some m =>
     if m.members ≠ [] then
-      -- subgraph, name = _expr._task(index)[1:3]; graph.update(subgraph); graph[(name, index)] = name
+      -- subgraph, name = _expr._task(index)[1:3]
+      -- graph.update({key: task for key, task in subgraph.items() if not _is_dependency_placeholder(task)})
+      -- graph[(name, index)] = name
       nested m ++ [(FKey.part m.name index, Tsk.alias (FKey.top m.name))]
     else
       -- elif self._broadcast_dep(_expr): graph[(name, 0)] = _expr._task(0) else graph[(name, index)] = _expr._task(index)
       [plainWrite dag m index]
 
 /-- the dict built by `Fused._task(index)` as its list of writes, in program order
-    (a later write to the same key wins).  `fuel` bounds the nesting depth. -/
+    (a later write to the same key wins).  The sub-graph of a nested group is merged without the
+    entries that alias the nested group's dependencies to its placeholders.
+    `fuel` bounds the nesting depth. -/
 def fusedWrites (dag : Dag) (index : Nat) : Nat → Node → List (FKey × Tsk FKey)
   | 0, _ => []
   | fuel+1, f =>
     [(FKey.top f.name, Tsk.alias (FKey.part (f.members.headD 0) index))] ++
-    f.members.flatMap (blockOf dag index (fun m => fusedWrites dag index fuel m)) ++
+    f.members.flatMap (blockOf dag index (fun m => (fusedWrites dag index fuel m).filter (fun w => !isPh w.2))) ++
     phWrites dag f index
 
 def lastWrite {κ} [DecidableEq κ] {β} (ws : List (κ × β)) (k : κ) : Option β :=
